@@ -1,0 +1,21 @@
+//go:build verif
+
+package vm
+
+import (
+	"github.com/goghcrow/yae/compiler"
+	"github.com/goghcrow/yae/parser/ast"
+	"github.com/goghcrow/yae/val"
+)
+
+// CompileCallThreaded is vm.Compile with the call-threaded dispatch loop selected.
+// The loop is otherwise reachable only through an unexported field; the verification
+// harness (build tag verif) uses this to drive it as a fourth back end.
+func CompileCallThreaded(expr ast.Expr, env1 *val.Env) compiler.Closure {
+	bytecode := NewCompile().Compile(expr, env1)
+	return func(env *val.Env) *val.Val {
+		v := NewVM()
+		v.interp = callThreading
+		return v.Interp(bytecode, env)
+	}
+}
